@@ -16,6 +16,9 @@ from ..constfold import Folder, EnumMember
 from ..bits import provenance
 from ..dataflow import Flow, chain, call_name
 from ..poly import Poly
+from ..terms import Terms, mk_cmp, is_none, plain, match, V, ANY, show, \
+    subterms, alternatives, stores, method_calls, lookup, truth_paths, \
+    yields, reify, owner_terms, owner_views
 from ..util import calls_in, qual, formals, returns_of, has_fact
 
 MC = "rig.machine_control.machine_controller"
@@ -310,71 +313,155 @@ def _inside(node, anc):
     return False
 
 
+def _rng(t):
+    return ("elem", ("call", ("global", "range"), (t,), ()))
+
+
 def r3_sets(program, rep):
+    """Membership and enumeration of the system description and of the
+    machine model, decided on canonical facts: what is yielded / accepted
+    under which conditions, however the tests are nested or staged."""
     si = MC + ":SystemInfo"
-    dc = unparse(program.get(si + ".dead_chips"))
-    ok = "for x in range(self.width)" in dc and \
-        "for y in range(self.height)" in dc and \
-        "if (x, y) not in self" in dc and "yield (x, y)" in dc
+    SELF = ("param", "self")
+    X, Y = _rng(("attr", SELF, "width")), _rng(("attr", SELF, "height"))
+    LINK = ("elem", ("global", "Links"))
+    dc = program.get(si + ".dead_chips")
+    D = Terms(dc)
+    ys = yields(D)
+    ok = len(ys) == 1 and ys[0][1] == ("tuple", X, Y) and \
+        (mk_cmp("In", ("tuple", X, Y), SELF), False) in ys[0][2]
     rep.check(ok, "C14-R3", si + ".dead_chips", "dead chips = grid minus "
-              "the chips present", construct="dead_chips", node=None)
-    dl = unparse(program.get(si + ".dead_links"))
-    ok = "for link in Links" in dl and \
-        "if link not in chip_info.working_links" in dl and \
-        "yield (x, y, link)" in dl and \
-        "for (x, y), chip_info in iteritems(self)" in dl
+              "the chips present", construct="dead_chips", node=dc)
+    dl = program.get(si + ".dead_links")
+    L = Terms(dl)
+    ys = yields(L)
+    E = ("elem", ("items", SELF))
+    ok = len(ys) == 1 and ys[0][1] == ("tuple", ("comp", ("comp", E, 0), 0),
+                                       ("comp", ("comp", E, 0), 1), LINK) \
+        and (mk_cmp("In", LINK, ("attr", ("comp", E, 1), "working_links")),
+             False) in ys[0][2]
     rep.check(ok, "C14-R3", si + ".dead_links", "dead links = for every "
               "present chip, all six links minus its working links",
-              construct="dead_links", node=None)
+              construct="dead_links", node=dl)
     ct = program.get(si + ".__contains__")
-    fl = Flow(ct)
-    rs = returns_of(ct)
-    forms = {}
-    for r in rs:
-        f = fl.facts(fl.cfg.node_of(r))
-        key = tuple(sorted(unparse(c) for c, p, _ in f if p))
-        forms[key] = unparse(r.value)
-    a = formals(ct)[1]
-    want_sub = {
-        "len(%s) == 2" % a: "__contains__(%s)" % a,
-        "isinstance(%s[2], Links)" % a: "link in chip.working_links",
-        "isinstance(%s[2], six.integer_types)" % a:
-            "0 <= p < chip.num_cores",
-        "len(%s) == 4" % a: "chip.core_states[p] == state",
-    }
-    for cond, frag in sorted(want_sub.items()):
-        ok = any(cond in k and frag in v for k, v in forms.items())
-        rep.check(ok, "C14-R3", qual(ct), "membership form '%s' answers "
-                  "with '%s'" % (cond, frag),
-                  construct="SystemInfo contains %s" % cond, node=ct)
+    C = Terms(ct)
+    a = ("param", formals(ct)[1])
+    ln = ("call", ("global", "len"), (a,), ())
+    is2, is3, is4 = [mk_cmp("Eq", ln, ("const", k)) for k in (2, 3, 4)]
+    a2 = C._comp(a, 2, -1)
+    isl = ("call", ("global", "isinstance"), (a2, ("global", "Links")), ())
+    isi = ("call", ("global", "isinstance"),
+           (a2, ("attr", ("global", "six"), "integer_types")), ())
+    CHIP = ("get", SELF, ("tuple", C._comp(a, 0, -1), C._comp(a, 1, -1)))
+    P_ = C._comp(a, 2, -1)
+    cases = [
+        ("(x, y)", [(is2, True)], None),
+        ("(x, y, link)", [(is2, False), (is3, True), (isl, True)],
+         {(is_none(CHIP), False),
+          (mk_cmp("In", a2, ("attr", CHIP, "working_links")), True)}),
+        ("(x, y, p)", [(is2, False), (is3, True), (isl, False), (isi, True)],
+         {(is_none(CHIP), False), (mk_cmp("LtE", ("const", 0), P_), True),
+          (mk_cmp("Lt", P_, ("attr", CHIP, "num_cores")), True)}),
+        ("(x, y, p, state)", [(is2, False), (is3, False), (is4, True)],
+         {(is_none(CHIP), False), (mk_cmp("LtE", ("const", 0), P_), True),
+          (mk_cmp("Lt", P_, ("attr", CHIP, "num_cores")), True),
+          (mk_cmp("Eq", ("item", ("attr", CHIP, "core_states"), P_),
+                  C._comp(a, 3, -1)), True)}),
+    ]
+    for name, hyps, want in cases:
+        H = C.under(*hyps)
+        paths = truth_paths(H)
+        if want is None:
+            ok = len(paths) == 1 and any(
+                t[0] in ("call", "callv") and t[2] == (a,) and
+                "__contains__" in show(t[1]) for t, p in paths[0])
+        else:
+            got = [frozenset((plain(t), p) for t, p in ps) for ps in paths]
+            ok = got == [frozenset((plain(t), p) for t, p in want)]
+        rep.check(ok, "C14-R3", qual(ct), "membership of %s holds exactly "
+                  "under the documented conditions" % name,
+                  construct="SystemInfo contains %s" % name, node=ct)
     # Machine membership / iteration
     mc = program.get(MA + ":Machine.__contains__")
-    t = unparse(mc)
-    ok = ("0 <= x < self.width and 0 <= y < self.height and ((x, y) not in "
-          "self.dead_chips)") in t and \
-        "(x, y) in self and (x, y, link) not in self.dead_links" in t
+    M = Terms(mc)
+    a = ("param", formals(mc)[1])
+    ln = ("call", ("global", "len"), (a,), ())
+    is2, is3 = [mk_cmp("Eq", ln, ("const", k)) for k in (2, 3)]
+    x_, y_, l_ = [M._comp(a, i, -1) for i in range(3)]
+    chip_ok = {(mk_cmp("LtE", ("const", 0), x_), True),
+               (mk_cmp("Lt", x_, ("attr", SELF, "width")), True),
+               (mk_cmp("LtE", ("const", 0), y_), True),
+               (mk_cmp("Lt", y_, ("attr", SELF, "height")), True),
+               (mk_cmp("In", ("tuple", x_, y_),
+                       ("attr", SELF, "dead_chips")), False)}
+    link_ok = {(mk_cmp("In", ("tuple", x_, y_), SELF), True),
+               (mk_cmp("In", ("tuple", x_, y_, l_),
+                       ("attr", SELF, "dead_links")), False)}
+
+    def norm(ps, arity):
+        # a tuple rebuilt from all components of the argument is the argument
+        out = set()
+        for t, p in ps:
+            t = plain(t)
+            out.add((t, p))
+        return frozenset(out)
+    ok = True
+
+    def variants(want, whole):
+        """The expected facts, with the tuple of all components of the
+        argument written either way (as a tuple or as the argument)."""
+        alt = set()
+        for t, p in want:
+            if t[0] == "cmp" and t[2] == whole:
+                t = (t[0], t[1], a, t[3])
+            alt.add((t, p))
+        return [norm(want, 0), norm(alt, 0)]
+    for hyps, want, whole in (
+            ([(is2, True)], chip_ok, ("tuple", x_, y_)),
+            ([(is2, False), (is3, True)], link_ok, ("tuple", x_, y_, l_))):
+        H = M.under(*hyps)
+        got = [norm(ps, 0) for ps in truth_paths(H)]
+        ok = ok and len(got) == 1 and got[0] in variants(want, whole)
     rep.check(ok, "C14-R3", qual(mc), "a chip is in the model iff in range "
               "and not dead; a link iff its chip is and the link is not "
               "dead", construct="Machine contains", node=mc)
-    for name, test, y_ in (("__iter__", "if (x, y) in self", "yield (x, y)"),
-                           ("iter_links", "if (x, y, link) in self",
-                            "yield (x, y, link)")):
-        f = program.get(MA + ":Machine." + name)
-        t = unparse(f)
-        ok = test in t and y_ in t and "range(self.width)" in t and \
-            "range(self.height)" in t and (name == "__iter__" or
-                                           "for link in Links" in t)
-        rep.check(ok, "C14-R3", qual(f), "%s yields exactly what "
-                  "__contains__ accepts, over the whole grid" % name,
-                  construct="Machine %s" % name, node=f,
-                  fail="Machine.%s does not filter with '%s': the model's "
-                       "chips/links no longer equal the probed working ones "
-                       "(e.g. links of dead chips are listed)" % (
-                           name, test[3:]))
+    it_ = program.get(MA + ":Machine.__iter__")
+    I = Terms(it_)
+    ys = yields(I)
+    ok = len(ys) == 1 and ys[0][1] == ("tuple", X, Y) and \
+        (mk_cmp("In", ("tuple", X, Y), SELF), True) in ys[0][2]
+    rep.check(ok, "C14-R3", qual(it_), "__iter__ yields exactly what "
+              "__contains__ accepts, over the whole grid",
+              construct="Machine __iter__", node=it_,
+              fail="Machine.__iter__ does not filter the grid with "
+                   "'(x, y) in self': the model's chips no longer equal "
+                   "the probed working ones")
+    il = program.get(MA + ":Machine.iter_links")
+    IL = Terms(il)
+    ys = yields(IL)
+    TRI = ("tuple", X, Y, LINK)
+    ok = len(ys) == 1 and ys[0][1] == TRI
+    if ok:
+        f = ys[0][2]
+        ok = (mk_cmp("In", TRI, SELF), True) in f or (
+            (mk_cmp("In", ("tuple", X, Y), SELF), True) in f and
+            (mk_cmp("In", TRI, ("attr", SELF, "dead_links")), False) in f)
+    rep.check(ok, "C14-R3", qual(il), "iter_links yields exactly what "
+              "__contains__ accepts, over the whole grid",
+              construct="Machine iter_links", node=il,
+              fail="Machine.iter_links does not filter with '(x, y, link) "
+                   "in self': the model's links no longer equal the probed "
+                   "working ones (e.g. links of dead chips are listed)")
     gi = program.get(MA + ":Machine.__getitem__")
-    t = unparse(gi)
-    rep.check("self.chip_resource_exceptions.get(xy, self.chip_resources)"
-              in t and "if xy not in self" in t, "C14-R3", qual(gi),
+    G = Terms(gi)
+    xy = ("param", formals(gi)[1])
+    rets = [(G.cfg.node_of(r), G.term(r.value)) for r in returns_of(gi)
+            if r.value is not None]
+    ok = len(rets) == 1 and rets[0][1] == (
+        "get", ("attr", SELF, "chip_resource_exceptions"), xy,
+        ("attr", SELF, "chip_resources")) and \
+        (mk_cmp("In", xy, SELF), True) in G.all_facts(rets[0][0])
+    rep.check(ok, "C14-R3", qual(gi),
               "a chip's resources are its exception entry, else the "
               "defaults; dead chips raise", construct="Machine getitem",
               node=gi)
